@@ -24,7 +24,7 @@ LIMIT = 262144 + 8
 
 
 def budget(tier):
-    return 14 if tier == "quick" else 150
+    return 14 if tier == "quick" else 600
 
 
 def clean_bytes(r, n):
